@@ -41,6 +41,10 @@ type absInterp struct {
 	c   *Ctx
 	fn  *ssa.Function
 	env map[ssa.Value]aiVal
+	// fields: values stored into struct fields during the run, by field name (loads read them back)
+	fields map[string]aiVal
+	// arrays: elements stored into local array literals, by allocation
+	arrays map[*ssa.Alloc]map[int64]aiVal
 	// call gives the meaning of a call (after helper inlining was declined); handled=false → unknown
 	call func(ai *absInterp, call *ssa.Call) (aiVal, bool)
 	// load gives the meaning of *addr
@@ -94,7 +98,7 @@ func (ai *absInterp) equal(a, b aiVal) (bool, bool) {
 		if a.kind == "nil" {
 			o = b
 		}
-		if o.kind == "sym" || o.kind == "str" || o.kind == "int" || o.kind == "tuple" {
+		if o.kind == "sym" || o.kind == "str" || o.kind == "int" || o.kind == "tuple" || o.kind == "list" {
 			return false, true // a defined non-nil object
 		}
 		return false, false
@@ -142,6 +146,22 @@ func (ai *absInterp) run(start, pred *ssa.BasicBlock, idx int) aiOutcome {
 						ai.env[t] = aiUnknown()
 					}
 				case token.MUL:
+					if fa, ok := t.X.(*ssa.FieldAddr); ok && ai.fields != nil {
+						if v, has := ai.fields[fieldName(fa.X.Type(), fa.Field)]; has {
+							ai.env[t] = v
+							continue
+						}
+					}
+					if ia, ok := t.X.(*ssa.IndexAddr); ok {
+						if l, i := ai.get(ia.X), ai.get(ia.Index); l.kind == "list" && i.kind == "int" {
+							if i.n >= 0 && int(i.n) < len(l.tup) {
+								ai.env[t] = l.tup[i.n]
+							} else {
+								return aiOutcome{kind: "opaque", why: "index out of range in the abstract run", at: cur}
+							}
+							continue
+						}
+					}
 					if ai.load != nil {
 						if v, ok := ai.load(ai, t.X); ok {
 							ai.env[t] = v
@@ -205,11 +225,87 @@ func (ai *absInterp) run(start, pred *ssa.BasicBlock, idx int) aiOutcome {
 					ai.env[t] = aiUnknown()
 				}
 			case *ssa.Store:
-				if ai.store != nil {
-					ai.store(ai, t.Addr, ai.get(t.Val))
+				val := ai.get(t.Val)
+				if fa, ok := t.Addr.(*ssa.FieldAddr); ok && ai.fields != nil {
+					ai.fields[fieldName(fa.X.Type(), fa.Field)] = val
 				}
+				if ia, ok := t.Addr.(*ssa.IndexAddr); ok {
+					if al, ok := ia.X.(*ssa.Alloc); ok {
+						if i := ai.get(ia.Index); i.kind == "int" {
+							if ai.arrays == nil {
+								ai.arrays = map[*ssa.Alloc]map[int64]aiVal{}
+							}
+							if ai.arrays[al] == nil {
+								ai.arrays[al] = map[int64]aiVal{}
+							}
+							ai.arrays[al][i.n] = val
+						}
+					}
+				}
+				if ai.store != nil {
+					ai.store(ai, t.Addr, val)
+				}
+			case *ssa.Slice:
+				// a slice literal (slice of a local array whose elements were stored before) or a sub-slice of a list
+				if al, ok := t.X.(*ssa.Alloc); ok {
+					if n, isArr := arrayLen(al.Type()); isArr && t.Low == nil && t.High == nil {
+						lst := aiVal{kind: "list"}
+						for i := int64(0); i < n; i++ {
+							if v, has := ai.arrays[al][i]; has {
+								lst.tup = append(lst.tup, v)
+							} else {
+								lst.tup = append(lst.tup, aiUnknown())
+							}
+						}
+						ai.env[t] = lst
+						continue
+					}
+				}
+				if base := ai.get(t.X); base.kind == "list" {
+					lo, hi := int64(0), int64(len(base.tup))
+					okB := true
+					if t.Low != nil {
+						if v := ai.get(t.Low); v.kind == "int" {
+							lo = v.n
+						} else {
+							okB = false
+						}
+					}
+					if t.High != nil {
+						if v := ai.get(t.High); v.kind == "int" {
+							hi = v.n
+						} else {
+							okB = false
+						}
+					}
+					if okB && lo >= 0 && lo <= hi && hi <= int64(len(base.tup)) {
+						ai.env[t] = aiVal{kind: "list", tup: append([]aiVal{}, base.tup[lo:hi]...)}
+						continue
+					}
+				}
+				ai.env[t] = aiUnknown()
 			case *ssa.Call:
 				cc := t.Common()
+				if bi, ok := cc.Value.(*ssa.Builtin); ok {
+					switch bi.Name() {
+					case "len":
+						if l := ai.get(cc.Args[0]); l.kind == "list" {
+							ai.env[t] = aiInt(int64(len(l.tup)))
+							continue
+						}
+					case "append":
+						if len(cc.Args) == 2 {
+							a, b := ai.get(cc.Args[0]), ai.get(cc.Args[1])
+							if a.kind == "nil" {
+								a = aiVal{kind: "list"}
+							}
+							if a.kind == "list" && b.kind == "list" {
+								ai.env[t] = aiVal{kind: "list", tup: append(append([]aiVal{}, a.tup...), b.tup...)}
+								continue
+							}
+						}
+					}
+				}
 				if g := cc.StaticCallee(); g != nil && ai.c.InModule(g) && g.Blocks != nil && g != ai.fn && len(frames) < 4 && ai.inline != nil && ai.inline(g) {
 					for k, prm := range g.Params {
 						if k < len(cc.Args) {
